@@ -31,6 +31,9 @@ def run_vt(prop, tier, seed, replay, clauses, rule, nontrivial):
             if not cl.startswith(clauses):
                 continue
             c = fl["case"]
+            if cl == "update_model_choice":
+                run.observation("update_model_choice", {"opts": c.get("opts"), "variant": c.get("variant")})
+                continue
             if cl == "update_uncompressed":
                 # C11 does not prescribe the compression the stage declares (C10 does, for merging): an observation
                 run.observation("update_declared_compression", {"declared_tc": c.get("declared_tc")})
